@@ -443,6 +443,14 @@ func c02prepare(ops []string) {
 			}
 			continue
 		}
+		if strings.HasPrefix(op, "mk ") {
+			seen[op] = true
+			if s, ok := c02mkSnippet(op); ok {
+				snips = append(snips, s)
+				lines = append(lines, op)
+			}
+			continue
+		}
 		if !strings.HasPrefix(op, "multi ") && !strings.HasPrefix(op, "seq ") {
 			continue
 		}
